@@ -70,6 +70,8 @@ pub enum FaultTarget {
     WorkerWrite,
     WorkerSync,
     WorkerUnlink,
+    /// Creation of a chunk file by the caller thread (a rotation): fails without creating it.
+    CallerCreate,
 }
 
 #[derive(Debug, Clone, Copy, PartialEq, Eq, Hash, Serialize, Deserialize)]
@@ -125,7 +127,9 @@ pub struct Ctl {
     pub trace: Vec<Ev>,
     pub workers: Vec<WorkerCtl>,
     pub faults: Vec<FaultRule>,
-    fault_counts: [u32; 3],
+    fault_counts: [u32; 4],
+    /// Injected failures of caller-side calls (chunk file creation).
+    pub caller_faults_hit: u32,
     pub faults_hit: u32,
     /// EIO / ENOSPC injections (short writes and EINTR are benign and not counted here).
     pub hard_faults_hit: u32,
@@ -159,7 +163,7 @@ impl Ctl {
         for r in &self.faults {
             if r.target == target && n >= r.nth && (n - r.nth) < r.count {
                 self.faults_hit += 1;
-                if matches!(r.kind, FaultKind::Eio | FaultKind::Enospc | FaultKind::ShortThenFail(_)) {
+                if matches!(r.kind, FaultKind::Eio | FaultKind::Enospc | FaultKind::ShortThenFail(_)) || r.target == FaultTarget::CallerCreate {
                     self.hard_faults_hit += 1;
                 }
                 return Some(r.kind);
@@ -249,7 +253,8 @@ pub fn begin(dir: &str) {
         trace: vec![],
         workers: vec![],
         faults: vec![],
-        fault_counts: [0; 3],
+        fault_counts: [0; 4],
+        caller_faults_hit: 0,
         faults_hit: 0,
         hard_faults_hit: 0,
         main_tid: gettid(),
@@ -315,10 +320,14 @@ pub fn register_worker(tid: i32, gated: bool, label: u32) {
     });
 }
 
+pub fn caller_faults_hit() -> u32 {
+    with_ctl(|c| c.caller_faults_hit).unwrap_or(0)
+}
+
 pub fn set_faults(f: Vec<FaultRule>) {
     with_ctl(|c| {
         c.faults = f;
-        c.fault_counts = [0; 3];
+        c.fault_counts = [0; 4];
     });
 }
 
@@ -499,6 +508,28 @@ fn chunk_name<'a>(dir: &str, path: &'a str) -> Option<&'a str> {
 }
 
 unsafe fn do_open(dirfd: c_int, path: *const c_char, flags: c_int, mode: mode_t) -> c_int {
+    // injected failure of a chunk file creation by a thread that is not a flush worker
+    if ACTIVE.load(Ordering::Relaxed) && !path.is_null() && flags & libc::O_CREAT != 0 {
+        if let Ok(p) = CStr::from_ptr(path).to_str() {
+            let tid = gettid();
+            let mut g = lock();
+            if let Some(c) = g.as_mut() {
+                if !c.faults.is_empty() && !is_worker(c, tid) {
+                    if let Some(name) = chunk_name(&c.dir, p) {
+                        let name = name.to_string();
+                        if c.fault_for(FaultTarget::CallerCreate).is_some() {
+                            let id = c.file_id(&name);
+                            c.caller_faults_hit += 1;
+                            c.trace.push(Ev::Open { file: id, create: true, ok: false, tid });
+                            drop(g);
+                            set_errno(libc::ENOSPC);
+                            return -1;
+                        }
+                    }
+                }
+            }
+        }
+    }
     let fd = libc::syscall(libc::SYS_openat, dirfd, path, flags | libc::O_LARGEFILE, mode as libc::c_uint) as c_int;
     if !ACTIVE.load(Ordering::Relaxed) || path.is_null() {
         return fd;
